@@ -157,6 +157,17 @@ func runChCase(c ChCase, tag string) (string, map[string]int) {
 		if c.Key != "\x00" {
 			req.Header.Set("X-API-Key", c.Key)
 		}
+		// what the request carries besides: nothing of it may change how often or in which order the layers are entered
+		switch c.Len % 4 {
+		case 1:
+			req.Header.Set("Accept-Encoding", "gzip")
+			req.Header.Set("Range", "bytes=0-9")
+		case 2:
+			req.Header.Set("Accept-Encoding", "gzip, br")
+		case 3:
+			req.Header.Set("Range", "bytes=5-")
+			req.Header.Set("If-Range", "\"v1\"")
+		}
 		rec := httptest.NewRecorder()
 		func() {
 			defer func() {
